@@ -3,5 +3,6 @@ CONSTANTS
   N = 2
   Rad = 2
   Bug = 0
+  OldDistance = FALSE
 CHECK_DEADLOCK FALSE
-INVARIANTS PtsLaw ContainsPointLaw IntersectsLaw IntersectionLaw ContainsLaw ExtendLaw ExtendPointLaw CornerLaw ShrinkStretchLaw CenterLaw DistanceLaw
+INVARIANTS PtsLaw ContainsPointLaw IntersectsLaw IntersectionLaw ContainsLaw ExtendLaw ExtendPointLaw CornerLaw ShrinkStretchLaw CenterLaw DistanceLaw DistanceDocLaw
